@@ -1,29 +1,50 @@
-from engine.native import note, assume
-from .common import decode, get_type
-from tpmstream.io.binary import Binary
-from tpmstream.common.event import MarshalEvent
+"""C02 - re-encoding the events of a decodable input reproduces the input bytes."""
+from . import spaces as sp
+
+PROP = "harness.props:roundtrip"
+META = {
+    "rule": "S(T,N) all bytes symbolic; M(shape) free leaves symbolic (strict), and warn mode with every leaf "
+            "unconstrained (value warnings only).",
+    "bounds": {
+        "quick": "primitive types at their width; structure types (seed-rotated half) lengths m(T)..min(m(T)+2,9); "
+                 "command/response shapes of 16 seed-rotated command codes with all leaves symbolic, strict and warn",
+        "thorough": "all structure types lengths 0..min(m(T)+4,14); shapes of all 117 command codes",
+    },
+    "outside": "inputs that are neither within N nor an instance of an explored shape",
+    "wall_budget_s": {"quick": 270, "thorough": 1500},
+}
 
 
-def roundtrip(cfg, b):
-    T = get_type(cfg["type"])
-    events, err, obj = decode(T, b, strict=True)
-    if err is not None:
-        note("rejected:" + type(err).__name__)
-        return []
-    note("accepted")
-    chunks = list(Binary.unmarshal(events))
-    out = b"".join(chunks)
-    checks = [("reencode-length", len(out) == len(b))]
-    checks.append(("reencode-bytes", out == b))
-    off = 0
-    conds = []
-    for e, c in zip(events, chunks):
-        if e.value is ...:
-            conds.append(len(c) == 0)
-        else:
-            w = e.type._int_size
-            conds.append(len(c) == w)
-            conds.append(c == b[off:off + w])
-            off += w
-    checks.append(("chunk-slices", all(conds)))
-    return checks
+def partitions(tier, seed):
+    quick = tier == "quick"
+    parts = []
+    for k in sp.prim_keys():
+        w = sp.L()["types"][k]["width"]
+        parts.append(sp.S(PROP, "C02", k, w, budget=20))
+        parts.append(sp.S(PROP, "C02", k, w, budget=20, cfg={"warn": True}))
+    sk = sp.struct_keys()
+    if quick:
+        sk = sp.rotate(sk, seed, len(sk) // 2)
+    for k in sk:
+        m = sp.min_size(k)
+        lo, hi = (m, min(m + 2, 9)) if quick else (0, min(m + 4, 14))
+        for n in range(lo, hi + 1):
+            parts.append(sp.S(PROP, "C02", k, n, budget=25 if quick else 120))
+    G = sp.gen()
+    ccs = sp.cc_list()
+    if quick:
+        ccs = sp.rotate(ccs, seed + 1, 16)
+    for cc in ccs:
+        for label, data in G.commands(cc, minimal=quick):
+            tr = sp.trace_of(sp.cmd_key(), data)
+            free = sp.free_positions(tr)
+            for warn in (False, True):
+                parts.append(sp.M(PROP, "C02", sp.cmd_key(), "%s-%s%s" % (sp.cc_name(cc), label, "-warn" if warn else ""),
+                                  data, free, budget=40, cfg={"warn": warn}))
+        for label, enc, data in G.responses(cc, minimal=quick):
+            tr = sp.trace_of(sp.rsp_key(), data, cc=cc, enc=enc)
+            free = sp.free_positions(tr)
+            for warn in (False, True):
+                parts.append(sp.M(PROP, "C02", sp.rsp_key(), "%s-%s%s" % (sp.cc_name(cc), label, "-warn" if warn else ""),
+                                  data, free, budget=40, cfg={"cc": cc, "enc": enc, "warn": warn}))
+    return parts
